@@ -132,7 +132,7 @@ def run_one(ctx, src, scopes, config, keep, workdir, cli=False):
         regions, _ = carts.random_regions(ctx.rng, 'zero')
         p1 = os.path.join(workdir, ambient.BASE[0] + '.p8')
         with open(p1, 'wb') as fh:
-            fh.write(rc.write_p8(regions, src, version=ambient.VERSION[0]))
+            fh.write(rc.write_p8_variant(ctx.rng, regions, src, version=ambient.VERSION[0]))
         argv = [ambient.vflag(), 'luamin'] + (['--keep-all-names'] if config.startswith('keep_all') else []) + (
             ['--keep-names-from-file', keep_file] if 'keep_file' in config else [])
         # several carts on one command line: every output must satisfy the property on its own
@@ -141,7 +141,7 @@ def run_one(ctx, src, scopes, config, keep, workdir, cli=False):
         if prev_src is not None:
             p0 = os.path.join(workdir, ambient.BASE[0] + '-0.p8')
             with open(p0, 'wb') as fh:
-                fh.write(rc.write_p8(regions, prev_src, version=ambient.VERSION[0]))
+                fh.write(rc.write_p8_variant(ctx.rng, regions, prev_src, version=ambient.VERSION[0]))
             extra_paths = [p0]
             ctx.feature('cli_two_carts_one_invocation')
         ctx.extra['_prev_cli_src'] = src
